@@ -111,6 +111,10 @@ type Machine struct {
 	seenBool map[string]bool
 	consts   map[string]int // const symbol name -> value ("#0" -> 0)
 
+	// Effect designates calls in statement position whose execution is the function's
+	// observable effect: reaching one ends the evaluation with Sym("effect").
+	Effect func(call *ast.CallExpr) bool
+
 	env    *Env
 	locals map[types.Object]Value
 	disc   bool // discovery pass: unknown symbols are recorded with rank 0
@@ -438,6 +442,9 @@ func (m *Machine) execStmt(s ast.Stmt) {
 	case *ast.BlockStmt:
 		m.exec(x.List)
 	case *ast.ReturnStmt:
+		if len(x.Results) == 0 {
+			panic(returned{Value{K: KNil}})
+		}
 		if len(x.Results) == 1 {
 			panic(returned{m.Eval(x.Results[0])})
 		}
@@ -495,6 +502,15 @@ func (m *Machine) execStmt(s ast.Stmt) {
 		}
 		undecided("tuple assignment")
 	case *ast.ExprStmt:
+		if call, ok := ast.Unparen(x.X).(*ast.CallExpr); ok && m.Effect != nil && m.Effect(call) {
+			for _, a := range call.Args {
+				m.Eval(a)
+			}
+			if !m.disc {
+				panic(returned{Sym("effect")})
+			}
+			return
+		}
 		v := m.Eval(x.X)
 		if v.K == KPanic && !m.disc {
 			panic(returned{v})
